@@ -195,7 +195,7 @@ class Oracle:
                         ts = IndentationRater.get_training_set_path(label=ts)
                     ts = IndentationRater.load_training_set(path=ts,
                                                             names=names)
-                reg_cl, kw = reg_dict[rargs["regressor"]]
+                reg_cl, kw = REG_DEFAULTS[rargs["regressor"]]
                 self.raters[key] = IndentationRater(
                     regressor=reg_cl(**dict(kw)), training_set=ts,
                     names=names, lda=rargs["lda"])
@@ -218,6 +218,17 @@ class Oracle:
                     raise
                 self.memo_rate[key] = ("raise", type(exc).__name__)
         return self.memo_rate[key]
+
+
+def _reg_defaults():
+    """the regressor table as shipped, captured when this module is first
+    imported (before any library call could have touched it)"""
+    import copy as _c
+    from nanite.rate.regressors import reg_dict
+    return {k: (v[0], _c.deepcopy(v[1])) for k, v in reg_dict.items()}
+
+
+REG_DEFAULTS = _reg_defaults()
 
 
 def rater_key(rargs):
